@@ -75,7 +75,7 @@ def run(chk, tier):
     chk.cov["evaluations"] += len(cases)
     chk.cov["distinct_nontrivial"] += nontrivial
     composites(chk, tier, rng)
-    chk.notes["programs"] = {"members": len(members), "compiled_variants": len(cases)}
+    chk.notes["program_families"] = {"members": len(members), "compiled_variants": len(cases)}
     if members:
         k = len(members) // 3
         chk.sample({"program_family": [members[k]["pos"], members[k]["shape"], members[k]["ind"]], "spec_verdict": members[k]["ok"], "spec_phase": members[k]["phase"]})
